@@ -514,6 +514,38 @@ def rememberExclusive (s : St) (p verf : Bytes) : St :=
   let base := if s.excl.length ≥ 1024 then [] else s.excl.filter (·.1 != p)
   { s with excl := (p, verf) :: base }
 
+/-- CREATE when the name is taken, first half: the decision, and the one change CREATE may make to an
+    existing object (the explicit size of an UNCHECKED create over a regular file) -/
+def createStep1 (s1 : St) (p : Bytes) (info : Fs.Info) (how : Nat) (sa : Sattr3) (verf : Bytes) : St × Nat :=
+  if how = 1 ∨ info.kind ≠ .file then (s1, 17)
+  else if how = 2 ∧ ¬ sameExclusive s1 p verf then (s1, 17)
+  else if ¬ how = 2 ∧ sa.size.isSome then
+    let sz := sa.size.getD 0
+    if sz > maxInt64 then (acInv s1 p, 22)
+    else if exceedsMax s1.cfg sz then (acInv s1 p, 27)
+    else match Fs.truncate s1.fs (fsPath p) sz with
+      | .error e => (acInv s1 p, mapErrno e)
+      | .ok fs1 => (acInv { s1 with fs := fs1 } p, 0)
+  else (s1, 0)
+
+/-- second half: look the object up, build the reply -/
+def createFinish (s2 : St) (st : Nat) (c : Ctx) (n : Node) (pre : Attrs) (p : Bytes) : St × Outcome :=
+  if st ≠ 0 then
+    let (s4, post) := getAttrOr s2 c.now n pre
+    (s4, res st (.wcc (wccOf pre post)))
+  else match lookupPath s2 c.now p with
+    | (s3, .error e) =>
+      let (s4, post) := getAttrOr s3 c.now n pre
+      (s4, res e (.wcc (wccOf pre post)))
+    | (s3, .ok node) =>
+      let (s4, post) := getAttrOr s3 c.now n pre
+      let (s5, fh) := allocate s4 node
+      (s5, res 0 (.createOk (some fh) (some (toFattr node.attrs)) (wccOf pre post)))
+
+def createExisting (s1 : St) (c : Ctx) (n : Node) (pre : Attrs) (p : Bytes) (info : Fs.Info) (how : Nat) (sa : Sattr3)
+    (verf : Bytes) : St × Outcome :=
+  createFinish (createStep1 s1 p info how sa verf).1 (createStep1 s1 p info how sa verf).2 c n pre p
+
 def procCreate (s : St) (c : Ctx) (args : Bytes) : St × Outcome :=
   if s.cfg.readOnly then (s, res 30 (.wcc wcc0)) else
   match decFh' s args with
@@ -535,7 +567,7 @@ def procCreate (s : St) (c : Ctx) (args : Bytes) : St × Outcome :=
   | none => (s, res 4 (.wcc wcc0))
   | some (sa, verf) =>
   let isExcl := how = 2
-  let mode := match sa.mode with | some m => m | none => 0o644
+  let mode := sa.mode.getD 0o644
   let newUid := match sa.uid with | some u => if c.uid = 0 then u else c.uid | none => c.uid
   let newGid := match sa.gid with | some g => if c.uid = 0 then g else c.gid | none => c.gid
   if validateMode mode ≠ 0 then (s, res 22 (.wcc wcc0)) else
@@ -547,32 +579,7 @@ def procCreate (s : St) (c : Ctx) (args : Bytes) : St × Outcome :=
   | (s1, .ok pre) =>
   let p := joinName n.path name
   match Fs.lstat s1.fs (fsPath p) with
-  | .ok info =>
-    -- the name is taken
-    let step1 : St × Nat :=
-      if how = 1 ∨ info.kind ≠ .file then (s1, 17)
-      else if isExcl ∧ ¬ sameExclusive s1 p verf then (s1, 17)
-      else if ¬ isExcl ∧ sa.size.isSome then
-        let sz := sa.size.getD 0
-        if sz > maxInt64 then (acInv s1 p, 22)
-        else if exceedsMax s1.cfg sz then (acInv s1 p, 27)
-        else match Fs.truncate s1.fs (fsPath p) sz with
-          | .error e => (acInv s1 p, mapErrno e)
-          | .ok fs1 => (acInv { s1 with fs := fs1 } p, 0)
-      else (s1, 0)
-    let (s2, st) := step1
-    let step2 : St × Nat × Option Node :=
-      if st ≠ 0 then (s2, st, none)
-      else match lookupPath s2 c.now p with
-        | (s3, .error e) => (s3, e, none)
-        | (s3, .ok node) => (s3, 0, some node)
-    let (s3, st2, ex) := step2
-    let (s4, post) := getAttrOr s3 c.now n pre
-    (match ex with
-     | some node =>
-       let (s5, fh) := allocate s4 node
-       (s5, res 0 (.createOk (some fh) (some (toFattr node.attrs)) (wccOf pre post)))
-     | none => (s4, res st2 (.wcc (wccOf pre post))))
+  | .ok info => createExisting s1 c n pre p info how sa verf
   | .error _ =>
     match createOp s1 c.now n name mode with
     | (s2, .error st) =>
@@ -601,7 +608,7 @@ def procMkdir (s : St) (c : Ctx) (args : Bytes) : St × Outcome :=
   match decSattr3 r2 with
   | none => (s, res 4 (.wcc wcc0))
   | some (sa, _) =>
-  let mode := match sa.mode with | some m => m | none => 0o755
+  let mode := sa.mode.getD 0o755
   if validateMode mode ≠ 0 then (s, res 22 (.wcc wcc0)) else
   match nodeOf s h with
   | none => (s, res 70 (.wcc wcc0))
